@@ -27,6 +27,7 @@ const smtPreamble = `(set-option :produce-models true)
 (assert (= (root 0) 0))
 (declare-fun bytes2str ((Array Int Int) Int Int) Str)
 (declare-fun str_empty () Str)
+(declare-fun char_str (Int) Str)
 (assert (= (slen str_empty) 0))
 (assert (forall ((s Str)) (! (>= (slen s) 0) :pattern ((slen s)))))
 (assert (forall ((s Str)) (! (=> (= (slen s) 0) (= s str_empty)) :pattern ((slen s)))))
